@@ -129,7 +129,10 @@ SyncDone ==
 (* T_async: run_async_validators; an async validator = check_lua / check_ai `validate` *)
 
 AsyncLive == Live /\ asyncRes = "pending"
-AVLive(a) == AsyncLive /\ avState[a] \in {"running", "joining"} /\ avRes[a] = "pending"
+\* (not AsyncLive: when the outer loop has returned an Err the runtime is dropped and the other
+\* validators are cancelled cooperatively -- they may still take steps until their next await, as
+\* recorded traces show; nothing they do is joined or merged any more)
+AVLive(a) == Live /\ avState[a] \in {"running", "joining"} /\ avRes[a] = "pending"
 
 \* tasks.spawn(async move { validator.validate(context).await })
 SpawnAV ==
